@@ -61,7 +61,7 @@ Theorem C16_report_xls_any_codepage : forall show_f64 cp c wb, cp < 65536 ->
   xls_parse_workbook show_f64 (xls_stream (MetaXlsCodePage_proofs.with_codepage cp c) wb) =
   xls_parse_workbook show_f64 (xls_stream c wb) /\
   xls_parse_workbook show_f64 (xls_stream (MetaXlsCodePage_proofs.with_codepage cp c) wb) =
-  Ok (mkParsed (wb_sheets wb) [] (spec_names_xls c wb) (wb_1904 wb)).
+  Ok (mkParsed (wb_sheets wb) [] (spec_names_xls show_f64 c wb) (wb_1904 wb)).
 Proof. exact MetaXlsCodePage_proofs.report_xls_any_codepage. Qed.
 
 Theorem C16_codepage_record_skipped_xls : forall d c rest st, 2 <= len d ->
@@ -73,13 +73,13 @@ Example C16_xls_codepage_nonvacuous :
             xls_legal (MetaXlsCodePage_proofs.with_codepage cp ex_xlsn_c) ex_xlsn_wb = true /\
             xls_parse_workbook (fun _ => [])
               (xls_stream (MetaXlsCodePage_proofs.with_codepage cp ex_xlsn_c) ex_xlsn_wb) =
-            Ok (mkParsed (wb_sheets ex_xlsn_wb) [] (spec_names_xls ex_xlsn_c ex_xlsn_wb) true))
+            Ok (mkParsed (wb_sheets ex_xlsn_wb) [] (spec_names_xls (fun _ => []) ex_xlsn_c ex_xlsn_wb) true))
          [1252; 1200; 932; 65001; 437; 54321; 0; 65535] /\
   firstn 10 (skipn 20 (xls_stream (MetaXlsCodePage_proofs.with_codepage 1252 ex_xlsn_c) ex_xlsn_wb)) =
     [66; 0; 2; 0; 228; 4; 225; 0; 2; 0] /\
   xls_legal MetaXlsCodePage_proofs.ex_xlsn_two ex_xlsn_wb = true /\
   xls_parse_workbook (fun _ => []) (xls_stream MetaXlsCodePage_proofs.ex_xlsn_two ex_xlsn_wb) =
-  Ok (mkParsed (wb_sheets ex_xlsn_wb) [] (spec_names_xls ex_xlsn_c ex_xlsn_wb) true).
+  Ok (mkParsed (wb_sheets ex_xlsn_wb) [] (spec_names_xls (fun _ => []) ex_xlsn_c ex_xlsn_wb) true).
 Proof. exact MetaXlsCodePage_proofs.xls_codepage_nonvacuous. Qed.
 
 (* one BoundSheet8 record: hsState is the low 2 bits of its byte, the other six are free *)
